@@ -60,10 +60,12 @@ type c09Cell struct {
 	J       int    `json:"j,omitempty"`
 	Stale   string `json:"signed_over,omitempty"`
 	Chain   string `json:"chain,omitempty"`
+	Dup     string `json:"duplicate_address,omitempty"` // "<list of the second entry>/<attacker-first|genuine-first>"
+	Shape   string `json:"proposal_shape,omitempty"`    // "" = the terms the real leader proposed; "alt" = c09AltTerms
 }
 
 func (c *c09Cell) key() string {
-	return fmt.Sprintf("%s|e%d|%s|%s|%s|%s|%s|%s|%s|%d|%d|%s|%s", c.Scheme, c.Epoch, c.Stage, c.Type, c.Sender, c.Key, c.Variant, c.Victim, c.Mut, c.I, c.J, c.Stale, c.Chain)
+	return fmt.Sprintf("%s|e%d|%s|%s|%s|%s|%s|%s|%s|%d|%d|%s|%s", c.Scheme, c.Epoch, c.Stage, c.Type, c.Sender, c.Key, c.Variant, c.Victim, c.Mut, c.I, c.J, c.Stale, c.Chain) + "|" + c.Dup + "|" + c.Shape
 }
 
 type c09Group struct {
@@ -72,6 +74,10 @@ type c09Group struct {
 	Victim string // role
 	VNode  string
 	Type   string
+	// Family selects which cells are generated: "" the full matrix, "dup" duplicate-address forgeries,
+	// "boundary" list-boundary moves on the alternative proposal shape
+	Family string
+	Shape  string
 	Cells  []*c09Cell
 }
 
@@ -170,12 +176,47 @@ func c09GenGroups(schemeName string, seed uint64, thorough bool) []*c09Group {
 			add(2, "e2-proposed", v[0], v[1], "abort")
 		}
 	}
+	// duplicate-address forgeries: current group members only (a newcomer has no recorded key to prefer)
+	for _, v := range victims {
+		if v[0] != "joiner" {
+			groups = append(groups, &c09Group{Epoch: 2, Stage: "e1-complete", Victim: v[0], VNode: v[1], Type: "proposal", Family: "dup"})
+		}
+	}
+	// list-boundary moves on a proposal shape in which they keep every validity constraint (c09AltTerms)
+	for _, v := range [][2]string{{"leader", "A"}, {"remainer", "C"}, {"joiner", "E"}, {"leaver", "F"}} {
+		groups = append(groups, &c09Group{Epoch: 2, Stage: "e1-complete", Victim: v[0], VNode: v[1], Type: "proposal", Family: "boundary", Shape: "alt"})
+	}
 	for gi, g := range groups {
 		rng := vfNewRng(vfCaseSeed(seed, "C09/"+schemeName, gi))
 		cell := func(c c09Cell) {
-			c.Scheme, c.Epoch, c.Stage, c.Victim, c.VNode, c.Type = schemeName, g.Epoch, g.Stage, g.Victim, g.VNode, g.Type
+			c.Scheme, c.Epoch, c.Stage, c.Victim, c.VNode, c.Type, c.Shape = schemeName, g.Epoch, g.Stage, g.Victim, g.VNode, g.Type, g.Shape
 			cc := c
 			g.Cells = append(g.Cells, &cc)
+		}
+		switch g.Family {
+		case "dup":
+			// the claimed sender's address twice: once with a fresh attacker key (named leader, signs the packet), once
+			// with the genuine key; second entry in Remaining, Leaving or Joining; both orders
+			for _, role := range []string{"leader", "member"} {
+				for _, where := range []string{"remaining", "leaving", "joining"} {
+					for _, order := range []string{"attacker-first", "genuine-first"} {
+						cell(c09Cell{Sender: role, Key: "sub", Variant: "self", Dup: where + "/" + order})
+					}
+				}
+			}
+			continue
+		case "boundary":
+			// messageForSigning serialises Joining, Remaining, Leaving in that order: entries moved across a boundary
+			// without changing the concatenated order
+			for _, m := range []string{"boundary.remaining-tail-to-leaving-head", "boundary.leaving-head-to-remaining-tail",
+				"boundary.joining-tail-to-remaining-head", "boundary.remaining-head-to-joining-tail"} {
+				for k := 1; k <= 2; k++ {
+					cell(c09Cell{Mut: m, I: k})
+				}
+			}
+			cell(c09Cell{Mut: "boundary.joining-tail-to-remaining-head-and-remaining-tail-to-leaving-head", I: 1})
+			cell(c09Cell{Mut: "meta.signature"})
+			continue
 		}
 		// (1) sender x key x variant, nothing altered
 		for _, role := range c09Roles {
@@ -427,11 +468,31 @@ func (b *c09Builder) terms(epoch int) *drand.ProposalTerms {
 	return proto.Clone(b.w.Terms[epoch]).(*drand.ProposalTerms)
 }
 
+// altTerms: an epoch-2 proposal by the real leader A in which one entry can cross either list boundary without
+// breaking a validity rule: joining [E G], remaining [B A C D] (leader not first), leaving [F], threshold 4
+// (n=6 needs >= 4; after a move n is 5..7 and 4 stays within [MinimumT(n), n]; remaining never drops below the old
+// threshold 3 when one entry moves). Everything else as in the real epoch-2 proposal.
+func (b *c09Builder) altTerms() *drand.ProposalTerms {
+	t := b.terms(2)
+	t.Joining = []*drand.Participant{b.part("E"), b.part("G")}
+	t.Remaining = []*drand.Participant{b.part("B"), b.part("A"), b.part("C"), b.part("D")}
+	t.Leaving = []*drand.Participant{b.part("F")}
+	t.Threshold = 4
+	t.Leader = b.part("A")
+	return t
+}
+
 // honest returns the untouched honest packet of a group (the positive control).
 func (b *c09Builder) honest(g *c09Group) *drand.GossipPacket {
 	w := b.w
 	switch g.Type {
 	case "proposal":
+		if g.Shape == "alt" {
+			t := b.altTerms()
+			pkt := b.body("proposal", t, nil)
+			must(c09Sign(b.kp("A"), w.BeaconID, b.kp("A").Public.Address(), pkt, t))
+			return pkt
+		}
 		return proto.Clone(w.Real[fmt.Sprintf("proposal%d", g.Epoch)]).(*drand.GossipPacket)
 	case "accept", "reject":
 		pkt := b.body(g.Type, nil, b.part("B"))
@@ -485,6 +546,9 @@ func (b *c09Builder) build(g *c09Group, c *c09Cell) (out c09Built) {
 
 	if c.Chain != "" {
 		return b.buildChain(g, c)
+	}
+	if c.Dup != "" {
+		return b.buildDup(g, c)
 	}
 	if c.Mut != "" {
 		pkt := b.honest(g)
@@ -674,6 +738,47 @@ func (b *c09Builder) buildStale(g *c09Group, c *c09Cell) (out c09Built) {
 	return out
 }
 
+// buildDup: a forged reshare proposal in which the claimed sender's address occurs twice: one entry carries a fresh
+// attacker key x (x is named leader and signs the packet), the other the genuine key. The forger is free to choose the
+// terms, so the threshold is raised where the extra entry would otherwise make it too low.
+func (b *c09Builder) buildDup(g *c09Group, c *c09Cell) (out c09Built) {
+	w := b.w
+	snode := c09SenderNode(g.Epoch, c.Sender, g.VNode)
+	sp := b.part(snode)
+	x := b.freshKey(sp.Address)
+	xp := c09Participant(x)
+	parts := strings.SplitN(c.Dup, "/", 2)
+	where, order := parts[0], parts[1]
+	t := b.terms(g.Epoch)
+	second := c09ListOf(t, where)
+	pos := -1
+	for i, p := range t.Remaining {
+		if p.GetAddress() == sp.Address {
+			pos = i
+		}
+	}
+	if pos < 0 || second == nil {
+		out.NA = "claimed sender is not a remaining member of the real proposal"
+		return out
+	}
+	if order == "attacker-first" {
+		t.Remaining[pos] = proto.Clone(xp).(*drand.Participant)
+		*second = append(*second, proto.Clone(sp).(*drand.Participant))
+	} else {
+		*second = append(*second, proto.Clone(xp).(*drand.Participant))
+	}
+	t.Leader = proto.Clone(xp).(*drand.Participant)
+	if n := len(t.Remaining) + len(t.Joining); int(t.Threshold) < n/2+1 {
+		t.Threshold = uint32(n/2 + 1)
+	}
+	pkt := b.body("proposal", t, nil)
+	must(c09Sign(x, w.BeaconID, sp.Address, pkt, t))
+	out.Pkt = pkt
+	out.Why = "signed with a fresh key listed under " + snode + "'s address; the key the victim's current group records for " + snode +
+		" only sits in a second entry with the same address (" + c.Dup + ")"
+	return out
+}
+
 // buildChain: step 1 (Pre) the real leader A proposes epoch 2 with B's key replaced by an attacker key x (signed by
 // A's real key: the proposal itself is authentic). Step 2 (Pkt): x signs an acceptance in B's name.
 func (b *c09Builder) buildChain(g *c09Group, c *c09Cell) (out c09Built) {
@@ -690,6 +795,31 @@ func (b *c09Builder) buildChain(g *c09Group, c *c09Cell) (out c09Built) {
 	out.Pre, out.Pkt = pre, pkt
 	out.Why = "acceptance in B's name signed by a key that is not B's key in the victim's current group (it was supplied by the proposal)"
 	return out
+}
+
+// c09MoveTailToHead moves the last k entries of src, in order, to the front of dst (dst follows src in the signed
+// serialisation, so the concatenation src||dst is unchanged).
+func c09MoveTailToHead(src, dst *[]*drand.Participant, k int) bool {
+	if k <= 0 || len(*src) < k {
+		return false
+	}
+	cut := len(*src) - k
+	moved := append([]*drand.Participant{}, (*src)[cut:]...)
+	*src = append([]*drand.Participant{}, (*src)[:cut]...)
+	*dst = append(moved, *dst...)
+	return true
+}
+
+// c09MoveHeadToTail moves the first k entries of src, in order, to the end of dst (dst precedes src in the signed
+// serialisation).
+func c09MoveHeadToTail(src, dst *[]*drand.Participant, k int) bool {
+	if k <= 0 || len(*src) < k {
+		return false
+	}
+	moved := append([]*drand.Participant{}, (*src)[:k]...)
+	*src = append([]*drand.Participant{}, (*src)[k:]...)
+	*dst = append(*dst, moved...)
+	return true
 }
 
 func c09OtherScheme(id string) string {
@@ -797,6 +927,26 @@ func (b *c09Builder) mutate(g *c09Group, c *c09Cell, pkt *drand.GossipPacket) st
 				t.BeaconID += "x"
 			case "remaining.member-added-from-nowhere-as-leaver":
 				t.Leaving = append(t.Leaving, b.part("O"))
+			case "boundary.remaining-tail-to-leaving-head":
+				if !c09MoveTailToHead(&t.Remaining, &t.Leaving, c.I) {
+					return "list too short"
+				}
+			case "boundary.leaving-head-to-remaining-tail":
+				if !c09MoveHeadToTail(&t.Leaving, &t.Remaining, c.I) {
+					return "list too short"
+				}
+			case "boundary.joining-tail-to-remaining-head":
+				if !c09MoveTailToHead(&t.Joining, &t.Remaining, c.I) {
+					return "list too short"
+				}
+			case "boundary.remaining-head-to-joining-tail":
+				if !c09MoveHeadToTail(&t.Remaining, &t.Joining, c.I) {
+					return "list too short"
+				}
+			case "boundary.joining-tail-to-remaining-head-and-remaining-tail-to-leaving-head":
+				if !c09MoveTailToHead(&t.Remaining, &t.Leaving, c.I) || !c09MoveTailToHead(&t.Joining, &t.Remaining, c.I) {
+					return "list too short"
+				}
 			default:
 				dot := strings.Index(mut, ".")
 				if dot < 0 {
@@ -931,6 +1081,8 @@ func c09Sig(g *c09Group, c *c09Cell) string {
 	switch {
 	case c.Chain != "":
 		return fmt.Sprintf("C09/forged-%s/%s-key-substituted-by-proposal/sender=%s", g.Type, victimClass, c.Sender)
+	case c.Dup != "":
+		return fmt.Sprintf("C09/forged-%s/%s-duplicate-address-remaining+%s/sender=%s", g.Type, victimClass, strings.ReplaceAll(c.Dup, "/", "-"), c.Sender)
 	case c.Mut != "":
 		return fmt.Sprintf("C09/unsigned-field/%s/%s/victim=%s", c09MutField(c.Mut), g.Type, victimClass)
 	case c.Stale != "":
@@ -965,6 +1117,9 @@ func (r *c09Runner) runGroup(g *c09Group, replay int, isReplay bool) {
 	run.Count("packets."+g.Type, 1)
 	controlOK := co.OK && co.Changed
 	gname := fmt.Sprintf("%s/e%d/%s/victim=%s/%s", w.Scheme.Name, g.Epoch, g.Stage, g.Victim, g.Type)
+	if g.Family != "" {
+		gname += "/" + g.Family
+	}
 	if controlOK {
 		run.Count("controls.passed", 1)
 		// replay of the accepted honest packet, and an altered packet re-using its (already seen) signature
